@@ -17,7 +17,11 @@ and reports which re-entries succeeded (bit 4 = the probe ran).  Oracle (the pro
     also after a hand-over whose enclosing call reverted.
 Hand-over points without foreign code execution (create_minimal_proxy_to, create_copy_of) only check the release.
 Lock kinds: transient (cancun+) / storage (pre-cancun) come with the configuration's evm version.
-The expected bits are also derived from coq/C09/Lock.v (observe_seq on the corresponding call tree)."""
+The expected bits are also derived from coq/C09/Lock.v (observe_seq on the corresponding call tree).
+
+Terminating statements (selfdestruct / raw_revert / raise / assert-reason / return) whose OPERAND expressions hand control
+over (extcall, staticcall, internal functions that call out / send / create) are the family of vlib/c09_halt.py, which
+reuses this module's probe and oracle."""
 from vlib import coqrun
 from vlib.evm import Chain
 
